@@ -177,6 +177,10 @@ func runC18(c *Ctx) {
 		if !(ftb.Of(fargs[0]).IsParam("2:e") && bytesT.Op == "Call" && bytesT.Name == "(*bytes.Buffer).Bytes" && bytesT.Args[0].V == bufV) {
 			okObj = false
 		}
+		if _, fresh := bufV.(*ssa.Alloc); !fresh {
+			r.Bad("C18.process", "Process:private-buffer", p.InstrPos(encStep.In), "the document is encoded into a buffer that is not freshly allocated by this call ("+stb.Of(bufV).String()+"): Event.FormattedAs keeps the slice without copying, so the stored document would alias memory that is reused for later events")
+			continue
+		}
 		if !okObj {
 			r.Bad("C18.process", "Process:objects", p.InstrPos(fmtStep.In), "encoder, buffer, cloudevent and stored bytes of a forwarding path are not one and the same chain (Encode(ce) -> sign(ctx,&ce,enc,buf) -> e.FormattedAs(key, buf.Bytes()))")
 			continue
